@@ -309,4 +309,12 @@ def r9_8(run):
     r4_5(run)
 
 
-RULES = [("R9.1", r9_1), ("R9.2", r9_2), ("R9.3", r9_3), ("R9.4", r9_4), ("R9.5", r9_5), ("R9.6", r9_6), ("R9.7", r9_7), ("R9.8", r9_8)]
+def r9_9(run):
+    """several loads at one junction are one load with the sum: the grouping helper that adds them up returns every junction once
+    with the sum of all its entries whatever the row order (shared with C06 R6.3: the numpy path sorts indices and values together
+    before the group boundaries are taken; an unsorted pass would return a junction twice and the second `+=` would win)"""
+    from .c06 import r6_3
+    r6_3(run)
+
+
+RULES = [("R9.1", r9_1), ("R9.2", r9_2), ("R9.3", r9_3), ("R9.4", r9_4), ("R9.5", r9_5), ("R9.6", r9_6), ("R9.7", r9_7), ("R9.8", r9_8), ("R9.9", r9_9)]
